@@ -473,6 +473,7 @@ pub fn profile_for(prop: &str, tier: &str) -> Profile {
         }
         "C17" => {
             p.tracers_pct = 25;
+            p.w_relevel = 1;
             p.w_trace = 6;
             p.w_keygen = 6;
             p.w_refresh = 6;
